@@ -278,7 +278,7 @@ func (r *runner) runSeq(lines []string) (fail *seqFail, w *world, err error) {
 			r.dist("skipped-no-second-trie")
 			continue
 		}
-		if w == nil && f[0] != "RESET" && f[0] != "MODE" && f[0] != "DS" && f[0] != "V" && f[0] != "VK" && f[0] != "CRASH" {
+		if w == nil && f[0] != "RESET" && f[0] != "MODE" && f[0] != "DS" && f[0] != "V" && f[0] != "VK" && f[0] != "CRASH" && f[0] != "SPROOF" {
 			w = newWorld(false)
 			if _, e := r.ask("RESET"); e != nil {
 				return nil, w, e
@@ -531,15 +531,22 @@ func (r *runner) runSeq(lines []string) (fail *seqFail, w *world, err error) {
 				hk = crypto.Keccak256(k)
 			}
 			var rp recPutter
+			var kp keepPutter // keeps the slices Prove hands over, as core/state.proofList does
 			var root []byte
 			g := guarded(func() string {
 				var e error
 				if w.secure {
 					root = w.st.Hash().Bytes()
 					e = w.st.Prove(hk, uint(lvl), &rp)
+					if e == nil {
+						e = w.st.Prove(hk, uint(lvl), &kp)
+					}
 				} else {
 					root = w.tr.Hash().Bytes()
 					e = w.tr.Prove(hk, uint(lvl), &rp)
+					if e == nil {
+						e = w.tr.Prove(hk, uint(lvl), &kp)
+					}
 				}
 				if e != nil {
 					return "err:" + e.Error()
@@ -553,6 +560,33 @@ func (r *runner) runSeq(lines []string) (fail *seqFail, w *world, err error) {
 				}
 				return strings.Join(parts, ",")
 			})
+			// the retained slices must still be the proof — right after Prove, and after the trie has hashed and proved
+			// something else (which reuses the hasher's scratch buffers)
+			for round := 0; round < 2; round++ {
+				if len(kp.vals) != len(rp.vals) {
+					return mkfail("oracle", i, "Prove handed %d nodes to a retaining Putter, %d to a copying one", len(kp.vals), len(rp.vals)), w, nil
+				}
+				for j := range kp.vals {
+					if !bytes.Equal(kp.vals[j], rp.vals[j]) {
+						return mkfail("oracle", i, "proof node %d kept by a retaining Putter (as core/state.proofList) was overwritten (%s): %s, the proof node is %s", j, []string{"right after Prove", "after a further Hash/Prove"}[round], trunc(fmt.Sprintf("%x", kp.vals[j]), 80), trunc(fmt.Sprintf("%x", rp.vals[j]), 80)), w, nil
+					}
+				}
+				if round == 0 {
+					guarded(func() string {
+						var sink recPutter
+						other := crypto.Keccak256(hk)
+						if w.secure {
+							w.st.Hash()
+							w.st.Prove(other, 0, &sink)
+						} else {
+							w.tr.Hash()
+							w.tr.Prove(other[:3], 0, &sink)
+						}
+						return ""
+					})
+				}
+			}
+			r.dist("proof-retained-slices-checked")
 			for j, b := range rp.vals {
 				if !bytes.Equal(crypto.Keccak256(b), rp.keys[j]) {
 					return mkfail("oracle", i, "Prove stored blob %d under a key that is not its Keccak hash", j), w, nil
@@ -839,6 +873,15 @@ func (r *runner) runSeq(lines []string) (fail *seqFail, w *world, err error) {
 			vl, _ := strconv.Atoi(f[2])
 			sd, _ := strconv.ParseUint(f[3], 10, 64)
 			if fl := r.crashCase(i, lines[i], n, vl, sd); fl != nil {
+				return fl, w, nil
+			}
+		case "SPROOF":
+			if len(f) < 3 {
+				continue
+			}
+			n, _ := strconv.Atoi(f[1])
+			sd, _ := strconv.ParseUint(f[2], 10, 64)
+			if fl := r.stateProofCase(i, lines[i], n, sd); fl != nil {
 				return fl, w, nil
 			}
 		case "DS":
